@@ -338,6 +338,8 @@ def _run(ctx):
         ctx.count('scanner')
         batch.append(({'op': 'c10.tokens', 'text': text}, r, {'text': text}))
         check_text(ctx, text, batch, 'scanner_text')
+    # 5b. probe of the interpreter's recursion limit (recorded finding FU2; the model has no such limit)
+    recursion_probe(ctx)
     # 6. conversions and constants
     conversion_cases(ctx, si, batch)
     gas_constant_check(ctx, si)
@@ -348,11 +350,12 @@ def _run(ctx):
             ctx.count('corr_' + req['op'])
             if req['op'] == 'c10.tokens':
                 ok = (rep == impl)
-            elif L.out_of_range(rep) or (('val' in rep or 'inexact' in rep) and rep.get('val', {}).get('n') != '0'
-                                         and big_intermediate(inp.get('text', '') + inp.get('qty', ''))
-                                         and (impl.get('err') == 'math' or impl.get('val') == 0.0
-                                              or ('val' in impl and math.isinf(impl['val'])))):
-                # overflow/underflow of doubles (OverflowError, inf, 0.0) is outside the decimal-literal abstraction
+            elif L.out_of_range(rep) or rep.get('flags', {}).get('extreme') or (
+                    rep.get('flags', {}).get('inexactSub') and not L.same_outcome(impl, rep)
+                    and (impl.get('err') == 'math' or impl.get('val') == 0.0 or ('val' in impl and math.isinf(impl['val'])))):
+                # some sub-expression has a magnitude beyond 1e+-150 (exactly known), or an irrational power whose size the
+                # model does not track and the implementation shows the symptom of overflow/underflow (OverflowError, inf,
+                # 0.0): doubles leave their range there, which is outside the decimal-literal abstraction (DESIGN 2.3)
                 ctx.count('corr_skipped_out_of_double_range')
                 continue
             else:
@@ -360,6 +363,16 @@ def _run(ctx):
                 ctx.count('model_' + (rep['err'] if 'err' in rep else ('inexact' if 'inexact' in rep else 'value')))
             if not ok:
                 ctx.disagree('corr:' + req['op'], inp, impl, rep)
+
+
+def recursion_probe(ctx):
+    for label, text in (('chain of 3000 factors', 'm ' * 3000), ('1500 nested parentheses', '(' * 1500 + 'm' + ')' * 1500)):
+        r = impl_eval(text)
+        ctx.case(None)
+        ctx.count('recursion_probe_' + (r['err'] if 'err' in r else 'value'))
+        if 'err' in r and r['err'].startswith('internal'):
+            ctx.violation('a long or deeply nested (well-formed) unit expression escapes with an unrelated exception',
+                          {'text': label}, 'a value', r, finding='FU2' if r['err'] == 'internal:RecursionError' else None)
 
 
 def big_intermediate(text):
